@@ -274,6 +274,32 @@ func c15Jobs() []sjob {
 			}
 			x.obs = transcriptOf(key, r1) + transcriptOf(key, r2)
 		}},
+		{"H12 load of a configuration whose user sits in three scopes, with group rules merged into slices that have spare capacity (as a JSON decode leaves them)", func(x *sx) {
+			lg, sink := &srvx.Logger{}, &sinkRec{}
+			ctx, cancel := context.WithCancel(context.Background())
+			defer cancel()
+			svcs := make([]config.Service, 1, 8)
+			svcs[0] = config.Service{Name: "shell", SetValues: []config.Value{{Name: "priv-lvl", Values: []string{"1"}}}}
+			cmds := make([]config.Command, 1, 8)
+			cmds[0] = config.Command{Name: "show", Action: config.PERMIT}
+			grp := config.Group{Name: "g", Services: []config.Service{{Name: "ppp", SetValues: []config.Value{{Name: "addr", Values: []string{"1.2.3.4"}}}}},
+				Commands: []config.Command{{Name: "ping", Action: config.PERMIT}}}
+			cfg := config.ServerConfig{
+				Secrets: []config.SecretConfig{scopeCfg("a", "key-a", "10.0.0.0/8"), scopeCfg("b", "key-b", "172.16.0.0/12"), scopeCfg("c", "key-c", "192.168.0.0/16")},
+				Users:   []config.User{{Name: "multi", Scopes: []string{"a", "b", "c"}, Services: svcs, Commands: cmds, Groups: []config.Group{grp}}},
+			}
+			feed := cfgFeed{ch: mkCfgChan(1)}
+			ld := newSLoader(ctx, lg, sink, nil, feed)
+			feed.ch.Send(cfg)
+			ld.BlockUntilLoaded()
+			for i, a := range []net.Addr{srvx.Addr4(10, 1, 1, 1, 9), srvx.Addr4(172, 16, 1, 1, 9), srvx.Addr4(192, 168, 1, 1, 9)} {
+				secret, h, err := ld.Get(context.Background(), a)
+				if err != nil || h == nil || string(secret) != []string{"key-a", "key-b", "key-c"}[i] {
+					x.fail("H12/functional", fmt.Sprintf("scope %d: lookup answered secret %q err %v", i, secret, err))
+				}
+			}
+			x.obs = "ok"
+		}},
 		{"H10-yaml the loader's update loop polling a file loader while the watcher loads the next document", func(x *sx) { c15H10(x, "yaml") }},
 		{"H10-json the loader's update loop polling a file loader while the watcher loads the next document", func(x *sx) { c15H10(x, "json") }},
 		{"H5 one connection multiplexing two sessions plus a second connection", func(x *sx) {
